@@ -5,6 +5,8 @@ Every statement yields exactly one structured result (see `results` in README se
 Points are mapped back to ticks exactly, values to Fractions (None = NaN, "inf"/"-inf" tokens for infinities).
 """
 import math
+import signal
+import threading
 import os
 import sys
 import warnings
@@ -80,6 +82,10 @@ def _same(a, b):
     return (pd.isna(a) and pd.isna(b)) or a == b
 
 
+class StatementTimeout(BaseException):
+    pass
+
+
 class Unbound(Exception):
     pass
 
@@ -145,16 +151,35 @@ class Impl:
             out.append(self.step(line))
         return out
 
+    STATEMENT_TIMEOUT = 60   # seconds; ordinary statements take milliseconds
+    _timeouts = 0
+
     def step(self, line):
         toks, opts = parse_opts(line.split())
+        # watchdog: a statement that does not come back (a loop that no longer terminates) is an outcome, not a hang of
+        # the whole check
+        use_alarm = hasattr(signal, "setitimer") and threading.current_thread() is threading.main_thread()
+        if use_alarm:
+            def _on_alarm(signum, frame):
+                raise StatementTimeout()
+            old_handler = signal.signal(signal.SIGALRM, _on_alarm)
+            # once something in this worker has hung, later statements get a short leash (the check must finish)
+            signal.setitimer(signal.ITIMER_REAL, self.STATEMENT_TIMEOUT if Impl._timeouts == 0 else 5)
         try:
             with warnings.catch_warnings():
                 warnings.simplefilter("ignore")
                 return self.exec(toks, opts)
         except Unbound:
             return ("err", "unbound")
+        except StatementTimeout:
+            Impl._timeouts += 1
+            return ("err", "Other:Timeout")
         except Exception as exc:  # noqa: BLE001
             return ("err", err_kind(exc))
+        finally:
+            if use_alarm:
+                signal.setitimer(signal.ITIMER_REAL, 0)
+                signal.signal(signal.SIGALRM, old_handler)
 
     def exec(self, toks, o):
         d = self.dom
